@@ -99,7 +99,7 @@ def poolStep (s : PState) : List String → Option (PState × String)
   | "pool-insert" :: n :: rest => do
       let n ← n.toNat?
       let nb ← parseBlocks3 n rest
-      let (s1, r) := insertMomentum s nb false
+      let (s1, r) := insertMomentum s nb
       if r = .nilDeref then pure (s1, "panic") else
       let (s2, o) := observePool s1
       pure (s2, o)
